@@ -5,8 +5,8 @@
 EXTENDS Server, Json
 
 VARIABLE kinds      \* ghost: kind of each id
-mvars == <<sockq, edge, pc, polled, i, reqI, reqC, empty, out, arrived, nrecv, nempty, hist, kinds>>
-mview == <<sockq, edge, pc, polled, i, reqI, reqC, empty, out, arrived, kinds>>
+mvars == <<sockq, edge, pc, polled, i, reqI, reqC, empty, out, arrived, nb, nrecv, nempty, hist, kinds>>
+mview == <<sockq, edge, pc, polled, i, reqI, reqC, empty, out, arrived, nb, kinds>>
 
 MInit == Init /\ kinds = <<>>
 MNext == \/ (Worker /\ UNCHANGED kinds)
@@ -17,6 +17,6 @@ ExactlyOnce == Quiescent => \A n \in 1..arrived : (kinds[n] # "X") <=> (\E r \in
 OwnProtocol == \A r \in out : kinds[r.req] = r.v
 NoReplyToInvalid == \A r \in out : kinds[r.req] # "X"
 
-Emit == (pc' = "poll" /\ ~edge' /\ sockq' = <<>> /\ arrived' = MaxArr /\ pc # "poll") =>
+Emit == (pc' = "poll" /\ sockq' = <<>> /\ (LevelTriggered \/ ~edge') /\ arrived' = MaxArr /\ pc # "poll") =>
             PrintT(ToJson([suite |-> "interleavings", B |-> B, pre |-> hist'.pre, inj |-> hist'.inj]))
 =============================================================================
